@@ -76,6 +76,7 @@ More == {
   \* a radius given as 0 is 0 (only an OMITTED y radius defaults to the x radius)
   C("ellipse", <<500, 500, 10, 0>>), C("ellipse", <<500, 500, 0, 10>>), C("ellipse", <<500, 500, 0>>), C("ellipse", <<500, 500, 10, 0, 450>>),
   C("ellipse", <<500, 500, 10, 0, 0, 0, 1800>>), C("ellipse", <<500, 500, 10, 10>>), C("rect", <<0, 0>>), C("rect", <<0, 5>>),
+  CS("clear", ""), CS("clear", "red"), GN(500, "blue"), GN(500, "red"),
   CS("text", "hi"),
   GN(-10, "red"), GN(NaN, "red"),
   CS("color", "none"), CH("color", <<4000>>), CS("colour", "blue"),
